@@ -94,6 +94,13 @@ def cases(tier, seed):
             if N <= 5:  # histograms of tiny or huge weights: the samples scale with them
                 out.append(dict(part="resample", N=N, B=B, scale=2.0**-50))
                 out.append(dict(part="resample", N=N, B=B, scale=2.0**60))
+    # many bins / many patches: any internal blocking of the jackknife sums must cover the whole array
+    for B, N in ((33, 3), (40, 3), (70, 2), (30, 200)) + (((100, 5), (30, 400)) if tier == "thorough" else ()):
+        for auto in (False, True):
+            out.append(dict(part="bigshape", B=B, N=N, auto=auto))
+    # joint covariance of several sample sets, both orientations (rowvar)
+    for M, Bs in ((3, (2, 2)), (4, (1, 2)), (5, (2,)), (2, (3, 1))):
+        out.append(dict(part="covjoint", M=M, Bs=list(Bs)))
     # (e) end to end: remove patch k from every input frame and measure again (differential oracle)
     pas = ("b0", "w0", "n0") if tier == "quick" else ("c0", "b0", "w0", "n0", "f0")
     pbs = ("b1", "n0") if tier == "quick" else ("c1", "b1", "n0", "n1")
@@ -214,6 +221,65 @@ def run_resample(case):
             v.append(viol("C03/resample_jackknife/samples-wrong",
                           f"resample_jackknife with {N} patches x {B} bins (patch_rows={rows}): {bad} of {N} samples are "
                           f"not the sum over all patches but k"))
+    return v, True
+
+
+def run_bigshape(case):
+    from yaw import Binning
+    from yaw.correlation.paircounts import NormalisedCounts, PatchedCounts, PatchedSumWeights
+
+    B, N, auto = case["B"], case["N"], case["auto"]
+    binning = Binning(np.linspace(0.1, 0.1 + 0.01 * B, B + 1))
+    b, i, j = np.meshgrid(np.arange(B), np.arange(N), np.arange(N), indexing="ij")
+    counts = ((7 * b + 3 * i + 5 * j + i * j) % 11 + 1).astype(float)  # small integers: all sums exact
+    if auto:
+        counts = counts * (j >= i)
+    sw1 = ((3 * np.arange(B)[:, None] + np.arange(N)[None, :]) % 5 + 1).astype(float)
+    sw2 = sw1.copy() if auto else ((2 * np.arange(B)[:, None] + 3 * np.arange(N)[None, :]) % 7 + 1).astype(float)
+    x = NormalisedCounts(PatchedCounts(binning, counts, auto=auto), PatchedSumWeights(binning, sw1, sw2, auto=auto))
+    v = []
+    try:
+        got = x.counts.sample_patch_sum()
+        gotw = x.sum_weights.sample_patch_sum()
+    except Exception as e:
+        return [viol(f"C03/bigshape/exception:{type(e).__name__}", yawx.exc_name(e))], True
+    tot = counts.sum(axis=(1, 2))
+    diag = np.einsum("bii->bi", counts)
+    loo = (tot[:, None] - counts.sum(axis=2) - counts.sum(axis=1) + diag).T  # exact in integers
+    if not (np.array_equal(got.data, tot) and np.array_equal(got.samples, loo)):
+        bad = sorted(set(np.nonzero(got.samples != loo)[1].tolist()))[:6] if got.samples.shape == loo.shape else "shape"
+        v.append(viol("C03/PatchedCounts.sample_patch_sum/many-bins-or-patches",
+                      f"{B} bins x {N} patches (auto={auto}): jackknife sums wrong in bins {bad}"))
+    prod = sw1[:, :, None] * sw2[:, None, :]
+    if auto:
+        prod = np.triu(prod) - 0.5 * np.einsum("bij,ij->bij", prod, np.eye(N))
+    totw = prod.sum(axis=(1, 2))
+    loow = (totw[:, None] - prod.sum(axis=2) - prod.sum(axis=1) + np.einsum("bii->bi", prod)).T
+    if not (ref.close(gotw.data, totw, rtol=1e-13) and ref.close(gotw.samples, loow, rtol=1e-12, atol=1e-9)):
+        v.append(viol("C03/PatchedSumWeights.sample_patch_sum/many-bins-or-patches",
+                      f"{B} bins x {N} patches (auto={auto}): jackknife weight products wrong"))
+    return v, True
+
+
+def run_covjoint(case):
+    from yaw.correlation.corrdata import cov_from_samples
+
+    M, Bs = case["M"], case["Bs"]
+    sets = [np.array([[C.PRIMES[(k * 7 + b * 3 + t * 11) % len(C.PRIMES)] * (1 + (k + b) % 3) for b in range(B)]
+                      for k in range(M)], dtype=float) for t, B in enumerate(Bs)]
+    joint = np.concatenate(sets, axis=1)
+    want = ref.ref_cov(joint)
+    v = []
+    for rowvar, arg in ((False, sets), (True, [x.T.copy() for x in sets])):
+        try:
+            got = cov_from_samples(arg, rowvar=rowvar)
+        except Exception as e:
+            v.append(viol(f"C03/cov_from_samples/exception:{type(e).__name__}", f"rowvar={rowvar}: {yawx.exc_name(e)}"))
+            continue
+        if got.shape != want.shape or not ref.close(got, want, rtol=1e-12, atol=1e-12):
+            v.append(viol(f"C03/cov_from_samples/joint/rowvar={rowvar}",
+                          f"joint covariance of {len(sets)} sample sets ({M} samples, {Bs} observables, rowvar={rowvar}) "
+                          f"is not the jackknife covariance of the concatenated samples"))
     return v, True
 
 
@@ -447,7 +513,7 @@ def run_e2e(case):
 
 def run_case(case):
     part = case["part"]
-    fn = dict(sum=run_sum, corrfunc=run_corrfunc, hist=run_hist, cov=run_cov, e2e=run_e2e, resample=run_resample)[part]
+    fn = dict(sum=run_sum, corrfunc=run_corrfunc, hist=run_hist, cov=run_cov, e2e=run_e2e, resample=run_resample, bigshape=run_bigshape, covjoint=run_covjoint)[part]
     viols, nontrivial = fn(case)
     res = dict(nontrivial=bool(nontrivial), key=case)
     if viols:
